@@ -62,6 +62,10 @@ fn wrappers() -> Vec<(&'static str, &'static str)> {
         ("WITH WHERE", "UNWIND $xs AS x WITH x WHERE {F} IS NOT NULL RETURN x"),
         ("WITH then count", "UNWIND $xs AS x WITH {F} AS y RETURN count(*) AS n"),
         ("SKIP 0 LIMIT big", "UNWIND $xs AS x RETURN {F} AS r SKIP 0 LIMIT 1000"),
+        ("SKIP 1", "UNWIND $xs AS x RETURN {F} AS r SKIP 1"),
+        ("SKIP all", "UNWIND $xs AS x RETURN {F} AS r SKIP 1000"),
+        ("WITH SKIP", "UNWIND $xs AS x WITH {F} AS y SKIP 2 RETURN y"),
+        ("ORDER BY + SKIP", "UNWIND $xs AS x RETURN {F} AS r ORDER BY r SKIP 1"),
         ("coalesce", "UNWIND $xs AS x RETURN coalesce({F}, 0) AS r"),
         ("CASE", "UNWIND $xs AS x RETURN CASE WHEN true THEN {F} ELSE 0 END AS r"),
         ("list comprehension", "RETURN [x IN $xs | {F}] AS r"),
